@@ -61,7 +61,7 @@ theorem load_loaded (src : Nat → Nat) (len n : Nat) (s : RState) (low : Nat) :
 
 theorem init_inv (src : Nat → Nat) (len n : Nat) (buf0 : Nat → Nat) (hn : 0 < n) :
     Inv src len n (init src len n buf0) 0 ⟨0, 0, 0, 0⟩ := by
-  have hc : cnt len n ⟨buf0, 0, 0, 0, 0⟩ = min n len := by simp [cnt]
+  have hc : cnt len n ⟨buf0, 0, 0, 0, []⟩ = min n len := by simp [cnt]
   refine { npos := hn, fwdlt := ?_, hw := ?_, pendle := ?_, pos0 := ?_, pos1 := ?_, dat0 := ?_, sen0 := ?_,
            dat1 := ?_, sen1 := ?_, adj := ?_, first := ?_, nwdef := ?_, newLo := ?_, newHi := ?_, ld := ?_, old := ?_ }
   · show 0 < 2 * n; omega
@@ -70,12 +70,12 @@ theorem init_inv (src : Nat → Nat) (len n : Nat) (buf0 : Nat → Nat) (hn : 0 
   · intro _; rfl
   · intro (h : n ≤ 0); omega
   · intro i hi (hl : 0 + i < len)
-    show (load src len n ⟨buf0, 0, 0, 0, 0⟩ 0).buf i = src (0 + i)
+    show (load src len n ⟨buf0, 0, 0, 0, []⟩ 0).buf i = src (0 + i)
     rw [load_in _ _ _ _ _ _ (by omega) (by rw [hc]; omega)]
     simp
   · intro (_ : (0 : Nat) ≤ len) (hl : len < 0 + n)
-    show (load src len n ⟨buf0, 0, 0, 0, 0⟩ 0).buf (len - 0) = 0
-    have := load_sentinel src len n ⟨buf0, 0, 0, 0, 0⟩ 0 (by rw [hc]; omega)
+    show (load src len n ⟨buf0, 0, 0, 0, []⟩ 0).buf (len - 0) = 0
+    have := load_sentinel src len n ⟨buf0, 0, 0, 0, []⟩ 0 (by rw [hc]; omega)
     rw [hc] at this
     have e : len - 0 = 0 + min n len := by omega
     rw [e]; exact this
@@ -86,7 +86,7 @@ theorem init_inv (src : Nat → Nat) (len n : Nat) (buf0 : Nat → Nat) (hn : 0 
   · left; exact ⟨rfl, fun (h : (0 : Nat) = 1) => by omega⟩
   · show (0 : Nat) ≤ 0 + 0; omega
   · show 0 + 0 < 0 + n; omega
-  · show (load src len n ⟨buf0, 0, 0, 0, 0⟩ 0).loaded = min len (0 + n)
+  · show (load src len n ⟨buf0, 0, 0, 0, []⟩ 0).loaded = min len (0 + n)
     rw [load_loaded, hc]; show 0 + min n len = _; omega
   · show (0 : Nat) ≤ 0 + n; omega
 
@@ -222,14 +222,14 @@ theorem step_load_first {src len n s k g} (h : Inv src len n s k g) (hk : k < le
 /-- **`next` is the stream's `next`** (for a source without NUL bytes): below the end it returns the source byte at
     the cursor and the invariant holds at the advanced cursor; at the end it returns EOF and changes nothing -/
 theorem next_refines {src len n s k g} (h : Inv src len n s k g) (hnf : NulFree src len) :
-    (k < len → (next src len n s).1 = some (src k) ∧ ∃ g', Inv src len n (next src len n s).2 (k + 1) g') ∧
-    (¬ k < len → next src len n s = (none, s)) := by
+    (k < len → (nextCore src len n s).1 = some (src k) ∧ ∃ g', Inv src len n (nextCore src len n s).2 (k + 1) g') ∧
+    (¬ k < len → nextCore src len n s = (none, s)) := by
   have hb := cur_byte h
   constructor
   · intro hk
     have e := hb.1 hk
     have nz : src k ≠ 0 := hnf k hk
-    unfold next
+    unfold nextCore
     simp only [e, nz, if_false]
     by_cases hp : 0 < s.pend
     · simp only [hp, if_true]
@@ -250,7 +250,7 @@ theorem next_refines {src len n s k g} (h : Inv src len n s k g) (hnf : NulFree 
   · intro hk
     have : k = len := by have := h.hw; omega
     have e := hb.2 this
-    unfold next
+    unfold nextCore
     simp [e]
 
 /-- **`Retract` moves the cursor back**: giving back `size` bytes that were read (and keeping the total given back
@@ -264,147 +264,13 @@ theorem retract_refines {src len n s k g} (h : Inv src len n s k g) (size : Nat)
   all_goals try simp only [retract]
   all_goals (try split) <;> omega
 
-/-! ### `Lexeme`: the cells between `lexemeBegin` and `forward` hold the source bytes between the two cursors -/
-
-/-- the buffer cell that holds source offset `j` (meaningful while `j` lies in one of the two loaded blocks) -/
-def cell (g : Ghost) (n j : Nat) : Nat := if g.b0 ≤ j ∧ j < g.b0 + n then j - g.b0 else n + (j - g.b1)
-
-theorem cell_cursor {src len n s k g} (h : Inv src len n s k g) : cell g n k = s.fwd := by
-  have ⟨npos, fwdlt, hw, pendle, pos0, pos1, dat0, sen0, dat1, sen1, adj, first, nwdef, newLo, newHi, ld, old⟩ := h
-  clear dat0 dat1 sen0 sen1 ld
-  unfold cell
-  split <;> omega
-
-theorem cell_ne {src len n s k g} (h : Inv src len n s k g) {j : Nat} (hj1 : g.nw ≤ j + n) (hj2 : j < k) :
-    cell g n j ≠ s.fwd := by
-  have ⟨npos, fwdlt, hw, pendle, pos0, pos1, dat0, sen0, dat1, sen1, adj, first, nwdef, newLo, newHi, ld, old⟩ := h
-  clear dat0 dat1 sen0 sen1 ld
-  unfold cell
-  split <;> omega
-
-theorem cell_succ {src len n s k g} (h : Inv src len n s k g) {j : Nat} (hj1 : g.nw ≤ j + n) (hj2 : j < k) :
-    (if cell g n j + 1 = 2 * n then 0 else cell g n j + 1) = cell g n (j + 1) := by
-  have ⟨npos, fwdlt, hw, pendle, pos0, pos1, dat0, sen0, dat1, sen1, adj, first, nwdef, newLo, newHi, ld, old⟩ := h
-  clear dat0 dat1 sen0 sen1 ld
-  unfold cell
-  split <;> split <;> split <;> omega
-
-theorem cell_data {src len n s k g} (h : Inv src len n s k g) {j : Nat} (hj1 : g.nw ≤ j + n) (hj2 : j < k) :
-    s.buf (cell g n j) = src j := by
-  have ⟨npos, fwdlt, hw, pendle, pos0, pos1, dat0, sen0, dat1, sen1, adj, first, nwdef, newLo, newHi, ld, old⟩ := h
-  unfold cell
-  split
-  · rename_i hc
-    have := dat0 (j - g.b0) (by omega) (by omega)
-    rw [this]; congr 1; omega
-  · rename_i hc
-    have hsv : g.sv = 1 := by clear dat0 dat1 sen0 sen1 ld; omega
-    have hb : g.b1 ≤ j ∧ j < g.b1 + n := by clear dat0 dat1 sen0 sen1 ld; omega
-    have := dat1 hsv (j - g.b1) (by omega) (by omega)
-    rw [this]; congr 1; omega
-
-theorem collect_spec {src len n s k g} (h : Inv src len n s k g) :
-    ∀ (d j fuel : Nat), j + d = k → g.nw ≤ j + n → d < fuel →
-      collect s n fuel (cell g n j) = (List.range d).map (fun i => src (j + i)) := by
-  intro d
-  induction d with
-  | zero =>
-    intro j fuel hjk _ hf
-    have : j = k := by omega
-    subst this
-    cases fuel with
-    | zero => omega
-    | succ f => simp [collect, cell_cursor h]
-  | succ d ih =>
-    intro j fuel hjk hj1 hf
-    cases fuel with
-    | zero => omega
-    | succ f =>
-      have hj2 : j < k := by omega
-      rw [collect, if_neg (cell_ne h hj1 hj2), cell_data h hj1 hj2, cell_succ h hj1 hj2,
-        ih (j + 1) f (by omega) (by omega) (by omega), List.range_succ_eq_map]
-      simp [Function.comp_def, Nat.add_assoc, Nat.add_comm 1]
-
-/-- **`Lexeme` returns the bytes between the two cursors** — provided the start of the lexeme has not been
-    overwritten, i.e. lexeme plus look-ahead fit into one half: `k + pend ≤ kb + n`. -/
-theorem lexeme_refines {src len n s k g} (h : Inv src len n s k g) (kb : Nat) (hkb : kb ≤ k)
-    (hwin : k + s.pend ≤ kb + n) (hlb : s.lb = cell g n kb) :
-    (lexeme n s).1 = (List.range (k - kb)).map (fun i => src (kb + i)) := by
-  have hnw : g.nw ≤ kb + n := by have := h.newLo; omega
-  have hd : k - kb < 2 * n := by have := h.newHi; have := h.npos; omega
-  show collect s n (2 * n) s.lb = _
-  rw [hlb]
-  exact collect_spec h (k - kb) kb (2 * n) (by omega) hnw hd
-
 /-! ### runs: any interleaving of `next`, `Retract`, `Lexeme` and `Skip` that respects the reader's contract -/
 
-/-- loading a block does not move the cells of the offsets that are still in the buffer -/
-def Stable (g g' : Ghost) (n k : Nat) : Prop :=
-  ∀ j, j ≤ k → g'.nw ≤ j + n → g.nw ≤ j + n ∧ cell g' n j = cell g n j
-
-theorem stable_refl (g : Ghost) (n k : Nat) : Stable g g n k := fun _ _ h => ⟨h, rfl⟩
-
-theorem stable_second {src len n s k g} (h : Inv src len n s k g) (hp : s.pend = 0) (h1 : s.fwd + 1 = n) :
-    Stable g ⟨g.b0, g.b0 + n, 1, g.b0 + n⟩ n k := by
-  have ⟨npos, fwdlt, hw, pendle, pos0, pos1, dat0, sen0, dat1, sen1, adj, first, nwdef, newLo, newHi, ld, old⟩ := h
-  clear dat0 dat1 sen0 sen1 ld
-  intro j hj (hv : g.b0 + n ≤ j + n)
-  refine ⟨by omega, ?_⟩
-  unfold cell
-  show (if g.b0 ≤ j ∧ j < g.b0 + n then j - g.b0 else n + (j - (g.b0 + n))) = _
-  split <;> omega
-
-theorem stable_first {src len n s k g} (h : Inv src len n s k g) (hp : s.pend = 0) (h1 : s.fwd + 1 = 2 * n) :
-    Stable g ⟨g.b1 + n, g.b1, 1, g.b1 + n⟩ n k := by
-  have ⟨npos, fwdlt, hw, pendle, pos0, pos1, dat0, sen0, dat1, sen1, adj, first, nwdef, newLo, newHi, ld, old⟩ := h
-  clear dat0 dat1 sen0 sen1 ld
-  intro j hj (hv : g.b1 + n ≤ j + n)
-  refine ⟨by omega, ?_⟩
-  unfold cell
-  show (if g.b1 + n ≤ j ∧ j < g.b1 + n + n then j - (g.b1 + n) else n + (j - g.b1)) = _
-  split <;> split <;> omega
-
-theorem next_lb (src : Nat → Nat) (len n : Nat) (s : RState) : (next src len n s).2.lb = s.lb := by
-  unfold next
-  simp only []
-  split
-  · rfl
-  · split
-    · rfl
-    · split
-      · rfl
-      · split <;> rfl
-
-/-- `next_refines`, also saying where the cells of the still-buffered offsets are afterwards -/
-theorem next_refines2 {src len n s k g} (h : Inv src len n s k g) (hnf : NulFree src len) (hk : k < len) :
-    (next src len n s).1 = some (src k) ∧
-    ∃ g', Inv src len n (next src len n s).2 (k + 1) g' ∧ Stable g g' n k := by
-  have e := (cur_byte h).1 hk
-  have nz : src k ≠ 0 := hnf k hk
-  unfold next
-  simp only [e, nz, if_false]
-  by_cases hp : 0 < s.pend
-  · simp only [hp, if_true]
-    exact ⟨trivial, g, step_reread h hk hp, stable_refl _ _ _⟩
-  · simp only [hp, if_false]
-    have hp0 : s.pend = 0 := by omega
-    by_cases h1 : s.fwd + 1 = n
-    · simp only [h1, if_true]
-      refine ⟨trivial, ⟨g.b0, g.b0 + n, 1, g.b0 + n⟩, ?_, stable_second h hp0 h1⟩
-      have := step_load_second h hk hp0 h1
-      simpa [h1] using this
-    · simp only [h1, if_false]
-      by_cases h2 : s.fwd + 1 = 2 * n
-      · simp only [h2, if_true]
-        exact ⟨trivial, _, step_load_first h hk hp0 h2, stable_first h hp0 h2⟩
-      · simp only [h2, if_false]
-        exact ⟨trivial, g, step_plain h hk hp0 h1 h2, stable_refl _ _ _⟩
-
 theorem next_pend {src len n s k g} (h : Inv src len n s k g) (hnf : NulFree src len) (hk : k < len) :
-    (next src len n s).2.pend = s.pend - 1 := by
+    (nextCore src len n s).2.pend = s.pend - 1 := by
   have e := (cur_byte h).1 hk
   have nz : src k ≠ 0 := hnf k hk
-  unfold next
+  unfold nextCore
   simp only [e, nz, if_false]
   by_cases hp : 0 < s.pend
   · simp [hp]
@@ -414,48 +280,73 @@ theorem next_pend {src len n s k g} (h : Inv src len n s k g) (hnf : NulFree src
     · simp [this]
     · split <;> simp [this]
 
+/-- the slice of the source between two cursors -/
+def slice (src : Nat → Nat) (kb k : Nat) : List Nat := (List.range (k - kb)).map fun i => src (kb + i)
+
+theorem slice_succ (src : Nat → Nat) {kb k : Nat} (h : kb ≤ k) : slice src kb (k + 1) = slice src kb k ++ [src k] := by
+  unfold slice
+  have e : k + 1 - kb = (k - kb) + 1 := by omega
+  rw [e, List.range_succ, List.map_append]
+  simp only [List.map_cons, List.map_nil]
+  have e2 : kb + (k - kb) = k := by omega
+  rw [e2]
+
+theorem slice_take (src : Nat → Nat) {kb k size : Nat} (h : size + kb ≤ k) :
+    (slice src kb k).take ((slice src kb k).length - size) = slice src kb (k - size) := by
+  unfold slice
+  simp only [List.length_map, List.length_range]
+  rw [← List.map_take, List.take_range]
+  congr 2
+  omega
+
+theorem slice_self (src : Nat → Nat) (k : Nat) : slice src k k = [] := by simp [slice]
+
+theorem inv_pending {src len n s k g} (h : Inv src len n s k g) (x : List Nat) : Inv src len n { s with pending := x } k g :=
+  ⟨h.npos, h.fwdlt, h.hw, h.pendle, h.pos0, h.pos1, h.dat0, h.sen0, h.dat1, h.sen1, h.adj, h.first, h.nwdef, h.newLo,
+   h.newHi, h.ld, h.old⟩
+
 /-- the reader at stream state `a` -/
 structure Inv2 (src : Nat → Nat) (len n : Nat) (s : RState) (a : AState) (g : Ghost) : Prop where
   inv : Inv src len n s a.k g
   pend : s.pend = a.p
   kble : a.kb ≤ a.k
-  lbrel : g.nw ≤ a.kb + n → s.lb = cell g n a.kb
-
-theorem inv_lb {src len n s k g} (h : Inv src len n s k g) (x : Nat) : Inv src len n { s with lb := x } k g :=
-  ⟨h.npos, h.fwdlt, h.hw, h.pendle, h.pos0, h.pos1, h.dat0, h.sen0, h.dat1, h.sen1, h.adj, h.first, h.nwdef, h.newLo,
-   h.newHi, h.ld, h.old⟩
+  pending : s.pending = slice src a.kb a.k
 
 theorem init_inv2 (src : Nat → Nat) (len n : Nat) (buf0 : Nat → Nat) (hn : 0 < n) :
     Inv2 src len n (init src len n buf0) ⟨0, 0, 0⟩ ⟨0, 0, 0, 0⟩ :=
-  ⟨init_inv src len n buf0 hn, rfl, Nat.le_refl _, fun _ => by simp [init, load, cell, hn]⟩
+  ⟨init_inv src len n buf0 hn, rfl, Nat.le_refl _, by simp [init, load, slice]⟩
 
 theorem step_refines {src len n} (hnf : NulFree src len) {s : RState} {a : AState} {g : Ghost}
     (h : Inv2 src len n s a g) (op : Op) {o : Out} {a' : AState} (hs : aStep src len n a op = some (o, a')) :
     (cStep src len n s op).1 = o ∧ ∃ g', Inv2 src len n (cStep src len n s op).2 a' g' := by
-  obtain ⟨inv, pend, kble, lbrel⟩ := h
+  obtain ⟨inv, pend, kble, hpending⟩ := h
   cases op with
   | next =>
     simp only [aStep] at hs
     by_cases hk : a.k < len
     · simp only [hk, if_true, Option.some.injEq, Prod.mk.injEq] at hs
       obtain ⟨ho, ha⟩ := hs
-      obtain ⟨e1, g', hinv', hst⟩ := next_refines2 inv hnf hk
-      refine ⟨by simp only [cStep, e1]; exact ho, g', ?_⟩
+      obtain ⟨e1, g', hinv'⟩ := (next_refines inv hnf).1 hk
+      have hp := next_pend inv hnf hk
       subst ha
-      refine ⟨hinv', ?_, by show a.kb ≤ a.k + 1; omega, ?_⟩
-      · show (next src len n s).2.pend = a.p - 1
-        rw [next_pend inv hnf hk, pend]
-      · intro hv
-        have := hst a.kb kble hv
-        show (next src len n s).2.lb = _
-        rw [next_lb, lbrel this.1, this.2]
+      generalize hr : nextCore src len n s = r at e1 hinv' hp
+      obtain ⟨r1, r2⟩ := r
+      simp only at e1 hinv' hp
+      subst e1
+      refine ⟨by simp only [cStep, next, hr]; exact ho, g', ?_⟩
+      simp only [cStep, next, hr]
+      refine ⟨inv_pending hinv' _, ?_, by show a.kb ≤ a.k + 1; omega, ?_⟩
+      · show r2.pend = a.p - 1
+        rw [hp, pend]
+      · show s.pending ++ [src a.k] = slice src a.kb (a.k + 1)
+        rw [hpending, slice_succ src kble]
     · simp only [hk, if_false, Option.some.injEq, Prod.mk.injEq] at hs
       obtain ⟨ho, ha⟩ := hs
       have e := (next_refines inv hnf).2 hk
       subst ha
-      refine ⟨by simp only [cStep, e]; exact ho, g, ?_⟩
-      simp only [cStep, e]
-      exact ⟨inv, pend, kble, lbrel⟩
+      refine ⟨by simp only [cStep, next, e]; exact ho, g, ?_⟩
+      simp only [cStep, next, e]
+      exact ⟨inv, pend, kble, hpending⟩
   | retract size =>
     simp only [aStep] at hs
     by_cases hc : size + a.kb ≤ a.k ∧ a.p + size ≤ n
@@ -466,34 +357,27 @@ theorem step_refines {src len n} (hnf : NulFree src len) {s : RState} {a : AStat
       refine ⟨retract_refines inv size (by omega) (by rw [pend]; exact hc.2), ?_, ?_, ?_⟩
       · show s.pend + size = a.p + size; rw [pend]
       · show a.kb ≤ a.k - size; omega
-      · exact lbrel
+      · show s.pending.take (s.pending.length - size) = slice src a.kb (a.k - size)
+        rw [hpending, slice_take src hc.1]
     · simp [hc] at hs
   | lexeme =>
-    simp only [aStep] at hs
-    by_cases hc : a.k + a.p ≤ a.kb + n
-    · simp only [hc, if_true, Option.some.injEq, Prod.mk.injEq] at hs
-      obtain ⟨ho, ha⟩ := hs
-      subst ha
-      have hnw : g.nw ≤ a.kb + n := by have := inv.newLo; rw [pend] at this; omega
-      refine ⟨?_, g, ?_⟩
-      · simp only [cStep]
-        rw [lexeme_refines inv a.kb kble (by rw [pend]; exact hc) (lbrel hnw)]
-        exact ho
-      · refine ⟨inv_lb inv _, pend, Nat.le_refl _, fun _ => ?_⟩
-        show s.fwd = cell g n a.k
-        exact (cell_cursor inv).symm
-    · simp [hc] at hs
+    simp only [aStep, Option.some.injEq, Prod.mk.injEq] at hs
+    obtain ⟨ho, ha⟩ := hs
+    subst ha
+    refine ⟨?_, g, ?_⟩
+    · simp only [cStep, lexeme]
+      rw [hpending]
+      exact ho
+    · exact ⟨inv_pending inv _, pend, Nat.le_refl _, by show ([] : List Nat) = slice src a.k a.k; rw [slice_self]⟩
   | skip =>
     simp only [aStep, Option.some.injEq, Prod.mk.injEq] at hs
     obtain ⟨ho, ha⟩ := hs
     subst ha
-    refine ⟨ho, g, inv_lb inv _, pend, Nat.le_refl _, fun _ => ?_⟩
-    show s.fwd = cell g n a.k
-    exact (cell_cursor inv).symm
+    exact ⟨ho, g, inv_pending inv _, pend, Nat.le_refl _, by show ([] : List Nat) = slice src a.k a.k; rw [slice_self]⟩
 
 /-- **Refinement for runs**: whatever sequence of `next`/`Retract`/`Lexeme`/`Skip` calls the lexer makes within the
     contract, the two-half reader returns exactly what the plain stream returns — for every source length, every
-    half size and every alignment of the blocks. -/
+    half size and every alignment of the blocks; a lexeme may be longer than the buffer. -/
 theorem run_refines {src len n} (hnf : NulFree src len) :
     ∀ (ops : List Op) (s : RState) (a : AState) (g : Ghost) (outs : List Out),
       Inv2 src len n s a g → aRun src len n a ops = some outs → cRun src len n s ops = outs := by
